@@ -1,6 +1,8 @@
 package tlog
 
 import (
+	"bytes"
+	"fmt"
 	"io"
 
 	"github.com/bluenviron/gomavlib/v3/pkg/dialect"
@@ -21,13 +23,20 @@ type Writer struct {
 	// private
 	//
 
+	buf         bytes.Buffer
 	frameWriter *frame.Writer
 }
 
 // Initialize initializes Writer.
 func (w *Writer) Initialize() error {
+	if w.ByteWriter == nil {
+		return fmt.Errorf("ByteWriter not provided")
+	}
+
+	// the frame is encoded into an internal buffer and the entry is written
+	// to ByteWriter in a single call, in order not to leave partial entries.
 	w.frameWriter = &frame.Writer{
-		ByteWriter: w.ByteWriter,
+		ByteWriter: &w.buf,
 		DialectRW:  w.DialectRW,
 	}
 	err := w.frameWriter.Initialize()
@@ -51,15 +60,16 @@ func (w *Writer) Write(entry *Entry) error {
 		byte(epoch >> 8),
 		byte(epoch),
 	}
-	_, err := w.ByteWriter.Write(buf)
+	// encode the entire entry before writing it,
+	// in order not to leave partial entries in case of encoding errors
+	w.buf.Reset()
+	w.buf.Write(buf)
+
+	err := w.frameWriter.Write(entry.Frame)
 	if err != nil {
 		return err
 	}
 
-	err = w.frameWriter.Write(entry.Frame)
-	if err != nil {
-		return err
-	}
-
-	return nil
+	_, err = w.ByteWriter.Write(w.buf.Bytes())
+	return err
 }
